@@ -81,24 +81,19 @@ func Main(cfg *vlib.Config, r *vlib.Report, scenarios []Scenario, quick, thoroug
 		}
 		os.Exit(0)
 	}
-	// shards: scenarios in declaration order, greedy chunks of similar weight
+	// one scenario per shard (worker process), heaviest first so the long ones start early
 	var names []string
 	shardOf := map[string][]string{}
 	{
-		tot := 0
-		for _, s := range scenarios {
-			tot += max(1, s.Weight)
+		order := make([]int, len(scenarios))
+		for i := range order {
+			order[i] = i
 		}
-		per := max(1, tot/(cfg.Workers*3))
-		curName, curW := "", 0
-		for _, s := range scenarios {
-			if curName == "" || curW >= per {
-				curName = fmt.Sprintf("s%03d", len(names))
-				names = append(names, curName)
-				curW = 0
-			}
-			shardOf[curName] = append(shardOf[curName], s.Name)
-			curW += max(1, s.Weight)
+		sort.SliceStable(order, func(a, b int) bool { return scenarios[order[a]].Weight > scenarios[order[b]].Weight })
+		for _, i := range order {
+			n := fmt.Sprintf("s%03d", i)
+			names = append(names, n)
+			shardOf[n] = []string{scenarios[i].Name}
 		}
 	}
 	r.SetRule(rule)
